@@ -375,6 +375,55 @@ fn m_stream_latch_n5() {
     core::mem::forget(st);
 }
 
+/// C20 M-stream-latch-any: the same step when the item's own `Deserialize` decides the outcome:
+/// success, or an error of *any* category (syntax, eof, type mismatch, not found) - a typed
+/// stream must end after a type error too, not only after a syntax error.
+struct Outcome;
+impl<'de> de::Deserialize<'de> for Outcome {
+    fn deserialize<D: de::Deserializer<'de>>(_d: D) -> std::result::Result<Self, D::Error> {
+        let k: u8 = kani::any();
+        kani::assume(k < 5);
+        if k == 0 {
+            return Ok(Outcome);
+        }
+        let code = match k {
+            1 => ErrorCode::InvalidJsonValue,
+            2 => ErrorCode::EofWhileParsing,
+            3 => ErrorCode::UnexpectedVisitType,
+            _ => ErrorCode::GetUnknownKeyInObject,
+        };
+        let e = core::mem::ManuallyDrop::new(crate::error::verif_kani_error::syntax_cut(code, &[], 0));
+        // in this harness D::Error is crate::Error
+        Err(unsafe { core::mem::transmute_copy::<core::mem::ManuallyDrop<Error>, D::Error>(&e) })
+    }
+}
+
+#[kani::proof]
+#[kani::unwind(4)]
+fn m_stream_latch_any_outcome() {
+    let latched: bool = kani::any();
+    let de = Deserializer::new(Read::new(b"1 2 3", false));
+    let mut st: StreamDeserializer<'_, Outcome, Read<'_>> = de.into_stream();
+    st.is_ending = latched;
+    let a = st.next();
+    if latched {
+        assert!(a.is_none());
+    } else {
+        let a_err = matches!(&a, Some(Err(_)));
+        assert!(a.is_some());
+        assert_eq!(st.is_ending, a_err);
+        let b = st.next();
+        if a_err {
+            assert!(b.is_none());
+        }
+        kani::cover!(a_err);
+        kani::cover!(!a_err && matches!(&b, Some(Err(_))));
+        core::mem::forget(b);
+    }
+    core::mem::forget(a);
+    core::mem::forget(st);
+}
+
 // ---- U-rawnumber --------------------------------------------------------------------------------
 
 struct RawProbe;
